@@ -106,6 +106,10 @@ TraceReq ==
                       [] e.kind = "seg" /\ c.phase = "seg" -> AfterSeg([c EXCEPT !.tgt = e.id])
                       [] e.kind = "part" /\ c.phase = "hint" -> AfterHint([c EXCEPT !.tgt = e.id])
                       [] OTHER -> [c EXCEPT !.phase = "any"]     \* off the model: later requests of this stream are not judged
+         \* segment requests are counted (look-ahead, downloaded units) even when the stream has left the model
+         c2 == IF known /\ e.kind \in {"seg", "part"} /\ ~faulty /\ c1.nseg = c.nseg
+               THEN [c1 EXCEPT !.nseg = c.nseg + 1, !.cur = e.id, !.firstSeg = IF c.firstSeg = None THEN e.id ELSE c.firstSeg]
+               ELSE c1
          checked == sc.mut = "" /\ (~known \/ c.phase # "any")
          r == FailAll(f, why, <<
                 <<"c11", "C11_FirstRequest", checked => firstOK>>,
@@ -114,7 +118,7 @@ TraceReq ==
                 <<"c20", "C20_LookAhead", (known /\ e.kind = "seg" /\ ~Stream(j).ll) => c.nseg + 1 <= Done(j) + 4>>,
                 <<"c12", "C12_RequestAfterOutcome", ~st.waited>>
               >>)
-     IN /\ cs' = IF known THEN [cs EXCEPT ![j] = c1] ELSE cs
+     IN /\ cs' = IF known THEN [cs EXCEPT ![j] = c2] ELSE cs
         /\ f' = r[1] /\ why' = r[2]
         /\ st' = [st EXCEPT !.nreq = st.nreq + 1,
                             !.faults = IF faulty THEN st.faults \cup {FaultClass(e.fault)} ELSE st.faults,
